@@ -22,6 +22,7 @@ func init() {
 			{"SLICE-REMOVE", ruleSliceRemove},
 			{"NONCE", ruleNonce},
 			{"SETID-SORTED", ruleSetIDSorted},
+			{"NORMALISE-IDENTITY", ruleNormaliseIdentity},
 			{"DOCID-VERIFY", ruleDocIDVerify},
 		},
 		Meta: eng.PropMeta{
@@ -517,4 +518,61 @@ func ruleDocIDVerify(c *eng.Ctx) {
 		return true
 	})
 	c.Check(cmp, rule, "create:carried-id-verified", fi.Decl.Pos(), "a document whose carried id differs from its content-derived id is refused", "the create path no longer refuses a document whose carried id differs from the id derived from its content")
+}
+
+// ruleNormaliseIdentity: the value normalisers of client/document.go (get<T>(v any) (T, error)) map
+// every input representation of a field value to the normal Go value that is then CBOR-encoded into
+// the docID. A value that already has the target type is the normal form: the case clause for T
+// returns the switch-bound value unchanged. Any transformation there (val.UTC(), rounding, trimming)
+// makes the typed route differ from the textual routes, so one document gets two docIDs.
+func ruleNormaliseIdentity(c *eng.Ctx) {
+	const rule = "NORMALISE-IDENTITY"
+	n := 0
+	for _, fi := range c.P.FuncsIn("client") {
+		if fi.Decl.Body == nil || fi.Decl.Recv != nil || !strings.HasPrefix(fi.Decl.Name.Name, "get") || isTestFile(c.P, fi) {
+			continue
+		}
+		sig := fi.Obj.Type().(*types.Signature)
+		if sig.Params().Len() != 1 || sig.Results().Len() != 2 || !types.IsInterface(sig.Params().At(0).Type()) || !eng.IsErrorType(sig.Results().At(1).Type()) {
+			continue
+		}
+		if sig.TypeParams() != nil {
+			continue
+		}
+		target := sig.Results().At(0).Type()
+		info := fi.Pkg.TypesInfo
+		ast.Inspect(fi.Decl.Body, func(m ast.Node) bool {
+			ts, ok := m.(*ast.TypeSwitchStmt)
+			if !ok {
+				return true
+			}
+			for _, cl := range ts.Body.List {
+				cc := cl.(*ast.CaseClause)
+				if len(cc.List) != 1 {
+					continue
+				}
+				if t := info.TypeOf(cc.List[0]); t == nil || !types.Identical(t, target) {
+					continue
+				}
+				bound := info.Implicits[cc]
+				n++
+				good, cnt := true, 0
+				for _, st := range cc.Body {
+					ast.Inspect(st, func(x ast.Node) bool {
+						if r, ok := x.(*ast.ReturnStmt); ok && len(r.Results) == 2 {
+							cnt++
+							if id, ok := ast.Unparen(r.Results[0]).(*ast.Ident); !ok || info.Uses[id] != bound {
+								good = false
+							}
+						}
+						return true
+					})
+				}
+				c.Check(good && cnt > 0, rule, fmt.Sprintf("client.%s:case(%s):identity", fi.Decl.Name.Name, eng.ExprStr(cc.List[0])), cc.Pos(), "a value of the target type is returned unchanged",
+					"the normaliser transforms a value that already has the field's Go type: the same document built from a typed value and from its textual form is encoded differently and gets two different docIDs")
+			}
+			return false
+		})
+	}
+	c.Floor(rule, n, 3)
 }
